@@ -11,7 +11,11 @@ mod cmp;
 mod c01;
 mod c02;
 mod c03;
+mod c05;
+mod c06;
+mod big;
 mod c08;
+mod c15;
 mod datum;
 mod c12;
 mod session;
@@ -56,6 +60,12 @@ fn main() {
         "c12-replay" => c12::replay_case(&cfg),
         "datum" => datum::run(&cfg),
         "datum-replay" => datum::replay_case(&cfg),
+        "c05" => c05::run(&cfg),
+        "c05-replay" => c05::replay_case(&cfg),
+        "c06" => c06::run(&cfg),
+        "c06-replay" => c06::replay_case(&cfg),
+        "c15" => c15::run(&cfg),
+        "c15-replay" => c15::replay_case(&cfg),
         "c01" => c01::run(&cfg),
         "c01-replay" => c01::replay_case(&cfg),
         x => {
